@@ -12,6 +12,8 @@ text = "\n".join(open(l, errors="replace").read() for l in logs if os.path.exist
 # last block about this mutant
 blocks = re.split(r"^=== ", text, flags=re.M)
 mine = [b for b in blocks if b.startswith(os.path.join(V, "seeded", "staging", mid) + " ") or ("/" + mid + "/patch.diff") in b]
+if not mine and len(logs) == 1 and os.path.basename(logs[0]).startswith(mid + "_"):
+    mine = [text]  # a per-mutant log written by the detection queue
 det = {"result": "not run", "keys": []}
 if mine:
     b = mine[-1]
@@ -25,6 +27,12 @@ dst = os.path.join(V, "seeded", mid)
 os.makedirs(dst, exist_ok=True)
 for f in ("patch.diff", "demo.cpp", "README.md"):
     shutil.copy(os.path.join(src, f), os.path.join(dst, f))
+# the author's patch was written against an older HEAD: keep it, and store the same change expressed against the HEAD it
+# was confirmed on as patch.diff, so that `git -C /repo apply seeded/<id>/patch.diff` works
+reb = os.path.join(src, "patch.rebased.diff")
+if os.path.exists(reb) and os.path.getsize(reb) > 0 and open(reb).read() != open(os.path.join(src, "patch.diff")).read():
+    shutil.copy(os.path.join(src, "patch.diff"), os.path.join(dst, "patch.author.diff"))
+    shutil.copy(reb, os.path.join(dst, "patch.diff"))
 meta = {"id": mid, "property": desc["property"], "change": desc["change"], "needs": desc["needs"],
         "author": "independent sub-agent given only the property record and a scratch worktree",
         "confirmation": dict(conf, how="bin/vconfirm: scratch tree /tmp/vconf/repo built with the reference flags; demo on unmodified tree, "
